@@ -158,6 +158,18 @@ def probes_leg(hp, rep, stats):
             if "crash" in r or r.get("crash_stage"):
                 rep.disagree({"leg": "probe", "text": t, "detail": r}, key="crash:recursive-constraint")
                 break
+        # nesting far below the 64 levels the property excludes: parse time must not explode
+        for depth in (6, 9, 13):
+            t = "let x = %s1%s;\n" % ("[" * depth, "]" * depth)
+            r = h.req({"op": "parse", "src": t}, timeout=40)
+            stats["probes"] = stats.get("probes", 0) + 1
+            if r.get("crash") == "timeout":
+                rep.disagree({"leg": "probe", "text": t, "what": "parse: no answer within 40 s", "depth": depth},
+                             key="hang:parser-exponential-in-nesting-depth")
+                break
+            if "crash" in r:
+                rep.disagree({"leg": "probe", "text": t, "detail": r}, key="crash:nested-literal")
+                break
     finally:
         h.close()
         shutil.rmtree(os.path.join(C.BUILD, "scratch", "c04p-%d" % os.getpid()), ignore_errors=True)
